@@ -161,6 +161,14 @@ def apply_fault(case, fault, ch):
     delta = ch.weighted([(5, ch.int(1, 3)), (3, ch.int(4, 9)), (2, ch.choice([12, 16, 23, 32, 40, 64, 100, 250]))])
     if fault == 'length_minus':
         delta = -min(delta, info['lengths'][k])
+        reps = [i for i, d in enumerate(case.ids) if d // 100000 == 1 and d % 1000 == 0]
+        if k == 3 and reps and ch.bool(1, 2):
+            # the descriptor list ends between a delayed replication descriptor and its class 31 factor
+            i = reps[ch.int(0, len(reps) - 1)]
+            delta = (7 + 2 * (i + 1)) - info['lengths'][k]
+        if k == 2 and ch.bool(1, 2):
+            # below the four octets of the section's own fixed part (its local part is "the rest of the section")
+            delta = ch.int(0, 3) - info['lengths'][k]
     off = info['offsets'][k]
     new = info['lengths'][k] + delta
     b[off:off + 3] = new.to_bytes(3, 'big')
